@@ -5,13 +5,7 @@ def register(add):
     B2 = ['src/md/blake2.h', 'src/md/blake2-impl.h', 'src/md/blake2s-ref.c']
     BH = ['c14y_b2s.h', 'c14y_b2s_state.h']
     BN = 'blake2s_compress abstract (replaced): records for the ghost call number the block byte at the ghost offset, t[0], t[1], f[0], f[1] and the block address; chaining value arbitrary'
-    # one unit per range of input lengths (one unit over the whole range needs > 300 s; the parts run in parallel)
-    for tag, lo, hi in (('b0', 0, 64), ('b1', 65, 128), ('b2', 129, 192)):
-        add('b2s_update.' + tag, ['C14'], 'blake2s_update', sources=B2, headers=BH, defines=['VC_B2S_CORE', 'VC_B2S_MEMCPY_MODEL', 'VC_B2_MININ=%d' % lo, 'VC_B2_MAXIN=%d' % hi], conf='base', route='bounded',
-            unwind=8, unwindset=['memcpy.0:66'], timeout=600, flags=['--sat-solver', 'cadical'],
-            decls='blake2s_state *S; const void *in; size_t n;', call='blake2s_update(S, in, n)', replace=['blake2s_compress'],
-            bound_note='input of %d..%d bytes with 0..64 bytes already buffered (%d..%d compressed blocks + the buffered rest); block loop unwound completely' % (lo, hi, max(0, (lo - 1) // 64), (hi + 63) // 64),
-            note=BN)
+    # blake2s_update: contract written (c14y_b2s.h) but the unit does not finish (see report): NOT registered
     add('b2s_final', ['C14', 'C08'], 'blake2s_final', sources=B2, headers=BH, defines=['VC_B2S_CORE'], conf='base', route='proof', unwind=10, timeout=600,
         decls='blake2s_state *S; void *out; size_t n;', call='blake2s_final(S, out, n)', replace=['blake2s_compress'],
         bound_note='loop bounded by the 8 state words; output buffer of exactly outlen <= 32 bytes', note=BN)
@@ -20,13 +14,13 @@ def register(add):
     add('b2s_init', ['C14'], 'blake2s_init', sources=B2, headers=BH, defines=['VC_B2S_CORE'], conf='base', route='proof', unwind=10, timeout=300,
         decls='blake2s_state *S; size_t n;', call='blake2s_init(S, n)', bound_note='loops bounded by the 8 state words', note='no callee abstract (blake2s_init_param inlined)')
     WH = ['c14y_b2w.h', 'c14y_b2w_state.h']
-    add('blake2s', ['C14', 'C08'], 'blake2s', sources=B2, headers=WH, defines=['VC_B2S_WRAP'], conf='base', route='proof', unwind=8, timeout=300, flags=['--sat-solver', 'cadical'],
-        decls='void *out; const void *in, *key; size_t outlen, inlen, keylen;', call='blake2s(out, outlen, in, inlen, key, keylen)',
-        replace=['blake2s_init/blake2s_init_v', 'blake2s_init_key/blake2s_init_key_v', 'blake2s_update/blake2s_update_v', 'blake2s_final/blake2s_final_v'],
-        bound_note='loop-free (callees abstract); message <= 100000 bytes; digest buffer of exactly the requested length (every size_t length; > 32 and 0 rejected)',
-        note='blake2s_init, blake2s_init_key, blake2s_update, blake2s_final abstract (views recording arguments, order and state identity, verdicts of the proved contracts of c14y_b2s.h)')
+    # blake2s(): contract and views written (c14y_b2w.h, VC_B2S_WRAP) but the unit does not finish: NOT registered
     for f, n in (('md_map_b2s160', 20), ('md_map_b2s256', 32)):
         add(f, ['C14', 'C08'], f, sources=['src/md/blake2.h', 'src/md/relic_md_blake2s.c'], headers=WH, defines=['VC_B2S_MAP'], conf='base', route='proof', unwind=8, timeout=300,
             decls='uint8_t *hash; const uint8_t *msg; size_t len;', call='%s(hash, msg, len)' % f, replace=['blake2s/blake2s_m'],
             bound_note='loop-free; message <= 100000 bytes; digest buffer of exactly %d bytes' % n,
-            note='blake2s() abstract (view: records its arguments, verdict of the proved contract of unit blake2s, ghost digest)')
+            note='blake2s() abstract (view ASSUMED, its own unit did not finish: records its arguments, returns -1 exactly for the argument errors blake2s() tests, ghost digest)')
+    # the parts built by the two sub-builders (SHA-384/512 finalisation + FinalBits; XMD instances + md_map_sh224/384/512)
+    import units_c14y_fin5, units_c14y_xmd
+    units_c14y_fin5.register(add)
+    units_c14y_xmd.register(add)
